@@ -62,6 +62,8 @@ UNSAFE_SCRIPTS = [
 ]
 UNSAFE_EXPECT = {"l1-head-on-other-fork": K_STUCK, "l1-head-on-other-fork-retained1": K_STUCK,
                  "stale-head-event-l1-ahead": K_HEADPRUNED}
+# symptoms that come with the primary finding of a hypothesis script (folded into its report)
+UNSAFE_COMPANIONS = {"P1d", "P1m", "P2h", "Stuck", "Converges"}
 
 # 2. assumption-respecting scripts that pin down interleavings random runs reach only sometimes
 SAFE_SCRIPTS = [
@@ -177,6 +179,12 @@ def known_for(ctx):
 
 
 def report(ctx, t, key, what, unsafe):
+    """Safe runs: a finding is a verdict (VIOLATION unless listed as known).  Scripts that break a STATED environment
+    assumption on purpose: the finding gets the script's name appended to its key (so that listing it as known can never
+    hide the same symptom in an assumption-respecting run) and is printed as KNOWN-FINDING when listed, else as an
+    OBSERVATION — never as a verdict."""
+    if unsafe:
+        key = "%s:%s" % (key, t["name"])
     robj = {"property": ctx.prop, "engine": "node", "test": "TestNodeRecord", "seed": ctx.seed,
             "input": t["replay"], "divergence": {"key": key, "what": what}}
     for k in known_for(ctx):
@@ -185,11 +193,10 @@ def report(ctx, t, key, what, unsafe):
                 ctx.known_hits.append({"key": k["key"], "what": k["what"]})
             return
     if unsafe:
-        # the script breaks a STATED environment assumption of Node.tla: an observation on the real code, not a verdict
-        ctx.coverage.setdefault("observations_outside_assumptions", [])
-        if key not in ctx.coverage["observations_outside_assumptions"]:
-            ctx.coverage["observations_outside_assumptions"].append(key)
-            print("OBSERVATION: property=%s outside AssumeSlowL1 (script %s): %s [%s]" % (ctx.prop, t["name"], what, key), flush=True)
+        obs = ctx.coverage.setdefault("observations_outside_assumptions", [])
+        if key not in obs:
+            obs.append(key)
+            print("OBSERVATION: property=%s outside AssumeSlowL1: %s [%s]" % (ctx.prop, what, key), flush=True)
         return
     ctx.report(key, what, robj)
 
@@ -225,6 +232,11 @@ def reconcile(ctx, traces, verdict, divs):
         if want != have:
             raise vlib.Broken("verdict sources disagree on trace %s: monitors %s, TLC accepted with flags %s"
                               % (t["name"], sorted(mon), sorted(have)))
+        primary = UNSAFE_EXPECT.get(t["name"]) if t.get("unsafe") else None
+        if primary in mon:
+            also = sorted(k for k in mon if k != primary and key_class(k) in UNSAFE_COMPANIONS)
+            report(ctx, t, primary, what_of.get((primary, t["name"]), primary) + (" (with: %s)" % ", ".join(also) if also else ""), True)
+            mon = {k for k in mon if k != primary and k not in also}
         for k in mon:
             report(ctx, t, k, what_of.get((k, t["name"]), what_of.get(k, k)), t.get("unsafe", False))
         agree += 1
